@@ -10,6 +10,7 @@ import (
 	"encoding/binary"
 	"io"
 	"math"
+	"os"
 )
 
 // handleRead handles NFSPROC3_READ - read from file
@@ -233,6 +234,21 @@ func (h *NFSProcedureHandler) handleCommit(body io.Reader, reply *RPCReply, auth
 	attrs, err := h.server.handler.GetAttr(node)
 	if err != nil {
 		return nfsErrorWithWcc(reply, mapError(err)), nil
+	}
+
+	// Flush the file: a successful COMMIT promises that everything written or
+	// truncated before it survives a crash.
+	if attrs.Mode.IsRegular() {
+		f, err := h.server.handler.fs.OpenFile(node.path, os.O_WRONLY, 0)
+		if err == nil {
+			err = f.Sync()
+			if closeErr := f.Close(); err == nil {
+				err = closeErr
+			}
+		}
+		if err != nil {
+			return nfsErrorWithWcc(reply, mapError(err)), nil
+		}
 	}
 
 	var buf bytes.Buffer
